@@ -523,13 +523,17 @@ def rule_G(ctx):
     found = {}
     n_cases = 0
 
-    def run(label, pts, times, request_desc, make_request, mode, want):
+    def run(label, pts, times, request_desc, make_request, mode, want, zone=None):
         """want: list of (position, time) expected"""
         nonlocal n_cases
         n_cases += 1
         t = build(pts, times)
+        if zone is not None:
+            t.call('setTimeZone', zone)          # (the time zone is a label of the timestamps: it does not move the instants)
         given = list(t.fields['_Track__POINTS'])      # the caller's observations (a second track may hold the very same objects: Track % n, Track(list))
         case = {'track': label, 'vertices': [list(p_) for p_ in pts], 'times (s)': times, 'request': request_desc, 'mode': 'temporal' if mode == consts['MODE_TEMPORAL'] else 'spatial'}
+        if zone is not None:
+            case['time zone set on the track before resampling'] = zone
         try:
             t.call('resample', make_request(), consts['ALGO_LINEAR'], mode)
         except orders.Unsupported as ex:
@@ -616,6 +620,22 @@ def rule_G(ctx):
                 continue
             run(label, pts, times, 'every %.4g m along the 2D polyline (length %.4g)' % (ds, S[-1]), lambda ds=ds: ds, SPAT, want)
     E0[0] = EPOCH_DEFAULT
+    # a track whose timestamps carry a time zone (setTimeZone): the samples are stamped with the same instants
+    if 'setTimeZone' in ctx.prog.cls('tracklib.core.track.Track').methods:
+        pts, times = tracks['irregular sampling']
+        dur = times[-1] - times[0]
+        S = [0.0]
+        for i in range(1, len(pts)):
+            S.append(S[-1] + math.hypot(pts[i][0] - pts[i - 1][0], pts[i][1] - pts[i - 1][1]))
+        full = [tuple(p_) + (tm,) for p_, tm in zip(pts, times)]
+        for zone in (2, -5):
+            step = dur / 4.0
+            inst = [times[0] + k * step for k in range(5)]
+            run('irregular sampling', pts, times, 'every %.4g s' % step, lambda step=step: step, TEMP,
+                [(lerp(pts, times, a), a) for a in inst if times[0] < a <= times[-1] + 1e-9], zone=zone)
+            ds = S[-1] / 4.0
+            want = [(tuple(pts[0]), times[0])] + [(lerp(full, S, k * ds)[:3], lerp(full, S, k * ds)[3]) for k in range(1, 5) if lerp(full, S, k * ds) is not None]
+            run('irregular sampling', pts, times, 'every %.4g m along the 2D polyline' % ds, lambda ds=ds: ds, SPAT, want, zone=zone)
     # a step AND a number of points: the step has priority (as documented)
     for label in ('irregular sampling', 'two fixes'):
         pts, times = tracks[label]
